@@ -123,13 +123,18 @@ func (s *Server) serve(ctx context.Context, listener net.Listener, handler Modbu
 			log.Printf("modbus server connection error: %v", err)
 		}
 	}
+	// listener must be set (under lock) before OnServeFunc announces that server is up, as from that moment
+	// Shutdown() and Addr() can be called from other goroutines.
+	s.mu.Lock()
+	s.listener = listener
+	s.mu.Unlock()
+
 	if s.OnServeFunc != nil {
 		// when listener is started with ":0" (random port) this will be helpful knowing where to connect
 		// and if server is listening already
 		s.OnServeFunc(listener.Addr())
 	}
 
-	s.listener = listener
 	l := onceCloseListener{Listener: listener}
 	defer l.Close()
 
